@@ -283,3 +283,38 @@ Definition array_split_at {A} (l : list A) (n i : Z) : result (list A) :=
 (* Scorer.score(plates=d, ...): an arbitrary function of the dict it is handed (plate id -> subset, in dict order)
    to the dict it returns (plate id -> score key, in dict order) *)
 Definition scorer_fn : Type := list (Z * subset) -> list slot.
+(* ---- ChunkedScoresHolder's two numpy arrays as lists (translations of add_score / combine /
+        plate_id_with_minimum_score / concat): a holder is represented by (scores, plate_ids, current_index) ---- *)
+Definition holder_arrays (h : holder) : list Z * list Z * Z :=
+  (map snd (h_slots h), map fst (h_slots h), Z.of_nat (h_cur h)).
+(* a.argmin(): position and value of the FIRST minimum; ValueError (Err 6) on an empty array *)
+Fixpoint argmin_from (l : list Z) : option (nat * Z) :=
+  match l with
+  | [] => None
+  | x :: r => match argmin_from r with
+              | None => Some (0%nat, x)
+              | Some (j, y) => if y <? x then Some (S j, y) else Some (0%nat, x)
+              end
+  end.
+Definition argmin_index (l : list Z) : result Z :=
+  match argmin_from l with
+  | Some (j, _) => Ok (Z.of_nat j)
+  | None => Err 6
+  end.
+(* a[i].item(): IndexError (Err 4) outside -len..len-1 *)
+Definition array_item (l : list Z) (i : Z) : result Z :=
+  match py_index l i with
+  | Some x => Ok x
+  | None => Err 4
+  end.
+(* np.isin(a, l) *)
+Definition isin (a l : list Z) : list bool := map (fun x => zmem x l) a.
+(* a[mask] with a boolean mask: IndexError (Err 4) when the lengths differ *)
+Definition mask_select (a : list Z) (m : list bool) : result (list Z) :=
+  if (length a =? length m)%nat then Ok (map fst (filter snd (combine a m))) else Err 4.
+(* l[0] on a Python list *)
+Definition list_head {A} (l : list A) : result A :=
+  match l with
+  | x :: _ => Ok x
+  | [] => Err 4
+  end.
